@@ -498,3 +498,56 @@ func variadicElems(v ssa.Value) []*Term {
 	}
 	return out
 }
+
+// Brief gives a short, refactoring-stable descriptor of a term: the field, the
+// callee whose result it is, the parameter index, or a constant.
+func (t *Term) Brief() string {
+	if t == nil {
+		return "?"
+	}
+	op := t.Op
+	switch {
+	case strings.HasPrefix(op, "field:"):
+		return strings.TrimPrefix(op, "field:")
+	case strings.HasPrefix(op, "ext:") && len(t.Args) == 1:
+		return t.Args[0].Brief() + "#" + strings.TrimPrefix(op, "ext:")
+	case strings.HasPrefix(op, "call:"):
+		if linTransparent[strings.TrimPrefix(op, "call:")] && len(t.Args) >= 1 {
+			return t.Args[0].Brief()
+		}
+		return strings.TrimPrefix(op, "call:") + "()"
+	case strings.HasPrefix(op, "param:"):
+		parts := strings.SplitN(op, ":", 3)
+		return "param" + parts[1]
+	case strings.HasPrefix(op, "const:"):
+		return strings.TrimPrefix(op, "const:")
+	case strings.HasPrefix(op, "makeslice:"):
+		return "make(" + strings.TrimPrefix(op, "makeslice:") + ")"
+	case op == "phi":
+		return "loopvar"
+	case (op == "+" || op == "-") && len(t.Args) == 2 && (t.Args[0].Op == "phi" || t.Args[1].Op == "phi"):
+		return "loopvar"
+	case op == "ref" && len(t.Args) == 1:
+		return t.Args[0].Brief()
+	case op == "load" && len(t.Args) == 1:
+		return t.Args[0].Brief()
+	case op == "index" && len(t.Args) == 2:
+		return t.Args[0].Brief() + "[" + t.Args[1].Brief() + "]"
+	case op == "slice" && len(t.Args) >= 1:
+		return t.Args[0].Brief() + "[:]"
+	case strings.HasPrefix(op, "global:"):
+		return strings.TrimPrefix(op, "global:")
+	case strings.HasPrefix(op, "local:"), strings.HasPrefix(op, "alloc:"):
+		return "local " + op[strings.Index(op, ":")+1:]
+	case strings.HasPrefix(op, "freevar") && len(t.Args) == 1:
+		return t.Args[0].Brief()
+	}
+	if len(t.Args) > 0 {
+		var parts []string
+		for _, a := range t.Args {
+			parts = append(parts, a.Brief())
+		}
+		return op + "(" + strings.Join(parts, ",") + ")"
+	}
+	return op
+}
